@@ -100,7 +100,7 @@ fn disagreement(imp: &mut Impl, model: &mut Model, p: &Program, st: &Style, opt:
 fn shrink(imp: &mut Impl, model: &mut Model, p: &Program, st: &Style, opt: bool) -> (Program, u32) {
     // keep the classes of the two outcomes fixed, so that an ill-typed candidate that happens to
     // disagree for another reason is not accepted
-    let want = disagreement(imp, model, p, st, opt).map(|(e, o)| (class_of(&e), class_of(&o)));
+    let want = disagreement(imp, model, p, st, opt).map(|(e, o)| (class_of(&e), class_of(&o), classify_pair(&e, &o)));
     let mut cur = p.clone();
     let mut steps = 0u32;
     let mut attempts = 0u32;
@@ -117,7 +117,7 @@ fn shrink(imp: &mut Impl, model: &mut Model, p: &Program, st: &Style, opt: bool)
                 break 'outer;
             }
             let cand = Program { types: cur.types.clone(), expr: c, ty: cur.ty.clone() };
-            let d = disagreement(imp, model, &cand, st, opt).map(|(e, o)| (class_of(&e), class_of(&o)));
+            let d = disagreement(imp, model, &cand, st, opt).map(|(e, o)| (class_of(&e), class_of(&o), classify_pair(&e, &o)));
             if d.is_some() && d == want {
                 cur = cand;
                 steps += 1;
@@ -205,14 +205,16 @@ fn main() {
     let mut impl_out = args.file("impl_out.txt");
     let mut cases = args.file("cases.txt");
     let mut shrunk = args.file("shrunk.jsonl");
+    let mut diff_classes = args.file("diff_classes.jsonl");
     let mut hist = Hist::default();
     let mut distinct = std::collections::HashSet::new();
     let mut n_cases = 0u64;
     let mut n_programs = 0u64;
     let mut rejected = 0u64;
     let mut n_shrunk = 0u32;
+    let mut last_sexp_case: Option<u64> = None;
     let mut shrunk_per_class: std::collections::HashMap<String, u32> = std::collections::HashMap::new();
-    let max_shrink: u32 = args.extra.get("max_shrink").and_then(|s| s.parse().ok()).unwrap_or(40);
+    let max_shrink: u32 = args.extra.get("max_shrink").and_then(|s| s.parse().ok()).unwrap_or(80);
     let styles = Style::all();
 
     let mut emit = |family: &str, p: &Program, used: &[&'static str], imp: &mut Impl, model: &mut Option<Model>, hist: &mut Hist| {
@@ -229,7 +231,13 @@ fn main() {
             }
             any = true;
             let oc = o.canonical();
-            writeln!(model_in, "{}", sexp).unwrap();
+            // the same program is run in several styles / settings: "=" repeats the previous line
+            if last_sexp_case == Some(n_programs) {
+                writeln!(model_in, "=").unwrap();
+            } else {
+                writeln!(model_in, "{}", sexp).unwrap();
+                last_sexp_case = Some(n_programs);
+            }
             writeln!(impl_out, "{}", oc).unwrap();
             // the s-expression is line i of model_in.txt; keep the (bulky, mostly indentation)
             // source text only for small programs and for the first cases of a run
@@ -251,6 +259,9 @@ fn main() {
                 } else {
                     String::new()
                 };
+                if mo != oc && mo != "(fuel)" {
+                    writeln!(diff_classes, "{}", serde_json::json!({"index": n_cases - 1, "class": prov})).unwrap();
+                }
                 if mo != oc && mo != "(fuel)" && n_shrunk < max_shrink && *shrunk_per_class.entry(prov.clone()).or_insert(0u32) < 2 {
                     *shrunk_per_class.get_mut(&prov).unwrap() += 1;
                     n_shrunk += 1;
@@ -260,6 +271,7 @@ fn main() {
                     let optimizer_only = opt && disagreement(imp, m, &small, st, false).is_none();
                     let line = serde_json::json!({
                         "index": n_cases - 1,
+                        "class": prov,
                         "style": st.name(),
                         "optimize": opt,
                         "optimizer_only": optimizer_only,
@@ -337,6 +349,7 @@ fn main() {
     impl_out.flush().unwrap();
     cases.flush().unwrap();
     shrunk.flush().unwrap();
+    diff_classes.flush().unwrap();
     gvh::out::write_json(
         &args.out.join("stats.json"),
         &serde_json::json!({
